@@ -260,6 +260,14 @@ func (s *State) evalInternal(node any) object.Object { //nolint:funlen,gocognit,
 		if node.Token.Type() == token.BITOR && left.Type() == object.STRING && node.Right.Value().Type() == token.LPAREN {
 			return s.evalPipe(left, node.Right)
 		}
+		if left.Type() == object.REGISTER {
+			switch node.Right.(type) {
+			case *ast.IntegerLiteral, *ast.FloatLiteral, *ast.Identifier, *object.Register:
+				// can't change the register: keep the cheap live form.
+			default:
+				left = object.CopyRegister(left) // n + (n=5): the left operand is the value n had.
+			}
+		}
 		right := s.Eval(node.Right)
 		if right.Type() == object.ERROR {
 			return right
